@@ -26,7 +26,8 @@ type poolBuf struct {
 
 func init() {
 	register(&Check{
-		ID: "C04", Level: "exploration", Configs: []string{"clean"},
+		ID:      "C04",
+		Tenants: func(c *core.Ctx, i int) tenant { return tenantPacket(c, "marshalto") }, Level: "exploration", Configs: []string{"clean"},
 		Run:         runC04,
 		QuickRuns:   1_500_000,
 		ThoroughSec: 600,
